@@ -27,10 +27,13 @@ EXTENDS Integers, Sequences, FiniteSets, TLC
 
 CONSTANT Mutant    \* "none" | "plusinpath" (server decodes '+' in path segments) | "queryaspath" (client escapes
                    \* query values like path segments) | "noclean-exclusion" (dot segments claimed in scope) | "trimform"
+                   \* | "rewind" (a seekable upload source is rewound to its start after sniffing)
+                   \* | "staticmemo" (one MatchedRoute shared by all requests of a parameter-free route: its consumer sticks)
+                   \* | "decodedkeycache" (Context-level route cache keyed by method + DECODED path)
 
 U == INSTANCE ClientURL WITH Variant <- "fixed"
 
-SLASH == 47  DOT == 46  SPACE == 32  TAB == 9  CR == 13  LF == 10
+SLASH == 47  DOT == 46  SPACE == 32  TAB == 9  CR == 13  LF == 10  QUOTE == 34  BSLASH == 92
 
 Locs == {"path", "query", "header", "urlform", "multiform"}
 
@@ -111,6 +114,125 @@ PathAgrees(tmpl, vals) ==
      LET r == Routed(tmpl, vals) IN r.found /\ \A n \in NamesOf(tmpl) : r.params[n] = vals[n]
 
 ---------------------------------------------------------------------------
+(* request bodies that are strings: sent with one of the media types the   *)
+(* operation consumes - as a JSON string (runtime.JSONProducer:            *)
+(* json.Encoder.Encode) or verbatim (runtime.TextProducer) - and decoded   *)
+(* by the consumer the server selects for the request.  A byte stands for  *)
+(* itself; only '"' and '\' need escaping in the model's alphabet.         *)
+BodyMedia == {"json", "text"}
+
+JsonEscByte(c) == IF c = QUOTE \/ c = BSLASH THEN <<BSLASH, c>> ELSE <<c>>
+JsonString(v)  == <<QUOTE>> \o U!Flatten([i \in 1..Len(v) |-> JsonEscByte(v[i])]) \o <<QUOTE, LF>>
+
+BadBody == [ok |-> FALSE, v |-> <<>>]
+RECURSIVE JsonUnesc(_)          \* the inside of a JSON string literal -> [ok, v]
+JsonUnesc(s) ==
+  IF s = <<>> THEN [ok |-> TRUE, v |-> <<>>]
+  ELSE IF Head(s) = QUOTE THEN BadBody
+  ELSE IF Head(s) = BSLASH
+       THEN IF Len(s) >= 2 /\ s[2] \in {QUOTE, BSLASH}
+            THEN LET r == JsonUnesc(SubSeq(s, 3, Len(s))) IN [ok |-> r.ok, v |-> IF r.ok THEN <<s[2]>> \o r.v ELSE <<>>]
+            ELSE BadBody
+  ELSE LET r == JsonUnesc(Tail(s)) IN [ok |-> r.ok, v |-> IF r.ok THEN <<Head(s)>> \o r.v ELSE <<>>]
+
+JsonParseString(w) ==           \* json.Decoder.Decode into interface{} of a document that is a string
+  LET t == IF w # <<>> /\ w[Len(w)] = LF THEN SubSeq(w, 1, Len(w) - 1) ELSE w IN
+  IF Len(t) >= 2 /\ t[1] = QUOTE /\ t[Len(t)] = QUOTE THEN JsonUnesc(SubSeq(t, 2, Len(t) - 1)) ELSE BadBody
+
+BodyEncode(mt, v) == IF mt = "json" THEN JsonString(v) ELSE v
+BodyDecode(mt, w) == IF mt = "json" THEN JsonParseString(w) ELSE [ok |-> TRUE, v |-> w]
+
+\* an empty text/plain body is no body at all (Content-Length 0): named deviation EmptyTextBodyIsAbsent
+BodyInScope(mt, v) == mt = "text" => v # <<>>
+
+---------------------------------------------------------------------------
+(* upload sources.  A file is handed to SetFileParam as a reader that may  *)
+(* already have been read from: src = [content, off, seekable, typed]      *)
+(* (typed: it reports its own ContentType(), nothing is sniffed).  What    *)
+(* the caller supplies is what REMAINS to be read.  The multipart writer   *)
+(* reads up to SniffLen bytes to detect the content type and must chain    *)
+(* them in front of the rest.                                              *)
+Remaining(content, off) == SubSeq(content, off + 1, Len(content))
+Min2(a, b) == IF a < b THEN a ELSE b
+
+Uploaded(src, sniffLen) ==
+  IF src.typed THEN Remaining(src.content, src.off)                        \* fileContentType = p.ContentType(); io.Copy(wrtr, fi)
+  ELSE LET end     == Min2(src.off + sniffLen, Len(src.content))
+           sniffed == SubSeq(src.content, src.off + 1, end)                 \* io.ReadFull(fi, buf)
+           rest    == SubSeq(src.content, end + 1, Len(src.content))
+       IN IF Mutant = "rewind" /\ src.seekable THEN src.content              \* Seek(0, io.SeekStart): the whole file
+          ELSE sniffed \o rest                                              \* io.MultiReader(bytes.NewReader(buf[:size]), fi)
+
+UploadAgrees(src, sniffLen) == Uploaded(src, sniffLen) = Remaining(src.content, src.off)
+
+---------------------------------------------------------------------------
+(* ONE server, MANY exchanges.  A server (middleware.Context + router) is  *)
+(* built from a configuration and then serves a sequence of requests; a    *)
+(* correct implementation remembers nothing but the configuration, so the  *)
+(* outcome of a request does not depend on the requests served before.     *)
+(*  operation o = [id, method, tmpl, consumes]  (consumes \subseteq        *)
+(*                BodyMedia; {} = the operation has no body)               *)
+(*  call c      = [op, vals : name -> bytes, media, body]                  *)
+(*  request r   = [method, segs (escaped wire segments), ctype, body]      *)
+(*  memory      = [routes, static] - empty for ever in the faithful model; *)
+(*                the mutants keep looked-up routes in it                  *)
+Mem0 == [routes |-> {}, static |-> {}]
+
+OpOf(cfg, id) == CHOOSE o \in cfg : o.id = id
+
+ClientRequest(cfg, c) ==
+  LET o == OpOf(cfg, c.op) IN
+  [method |-> o.method, segs |-> WireSegs(o.tmpl, c.vals), ctype |-> c.media,
+   body |-> IF c.media = "none" THEN <<>> ELSE BodyEncode(c.media, c.body)]
+
+PhIndex(tmpl, n) == CHOOSE j \in 1..Len(tmpl) : tmpl[j].k = "ph" /\ tmpl[j].n = n
+
+NoRoute == [found |-> FALSE, op |-> "", params |-> <<>>]
+\* defaultRouter.Lookup(method, URL.EscapedPath()): path.Clean, trie match, PathUnescape of the captured texts;
+\* every request gets a FRESH MatchedRoute (no consumer resolved yet)
+RouterLookup(cfg, method, segs) ==
+  LET cl    == CleanSegs(segs, <<>>)
+      cands == {o \in cfg : o.method = method /\ Matches(o.tmpl, cl)}
+  IN IF cands = {} THEN NoRoute
+     ELSE LET o == CHOOSE x \in cands : TRUE          \* the templates of a configuration are unambiguous (assumption)
+          IN [found |-> TRUE, op |-> o.id, params |-> [n \in NamesOf(o.tmpl) |-> Decode("path", cl[PhIndex(o.tmpl, n)]).v]]
+
+DecodedPath(segs) == U!JoinWith([i \in 1..Len(segs) |-> Decode("path", segs[i]).v], SLASH)       \* URL.Path
+
+\* Context.LookupRoute -> [mem, route]
+LookupRoute(mem, cfg, r) ==
+  IF Mutant = "decodedkeycache"
+  THEN LET key == <<r.method, DecodedPath(r.segs)>>
+           hit == {e \in mem.routes : e.key = key}
+       IN IF hit # {} THEN [mem |-> mem, route |-> (CHOOSE e \in hit : TRUE).route]
+          ELSE LET rt == RouterLookup(cfg, r.method, r.segs)
+               IN [mem |-> IF rt.found THEN [mem EXCEPT !.routes = @ \cup {[key |-> key, route |-> rt]}] ELSE mem, route |-> rt]
+  ELSE [mem |-> mem, route |-> RouterLookup(cfg, r.method, r.segs)]
+
+\* validation.contentType: the consumer is the one registered for THIS request's Content-Type -> [mem, consumer]
+SelectConsumer(mem, route, r) ==
+  IF r.ctype = "none" THEN [mem |-> mem, consumer |-> "none"]
+  ELSE IF Mutant = "staticmemo" /\ DOMAIN route.params = {}
+  THEN LET hit == {e \in mem.static : e.op = route.op}
+       IN IF hit # {} THEN [mem |-> mem, consumer |-> (CHOOSE e \in hit : TRUE).consumer]     \* route.Consumer # nil: kept
+          ELSE [mem |-> [mem EXCEPT !.static = @ \cup {[op |-> route.op, consumer |-> r.ctype]}], consumer |-> r.ctype]
+  ELSE [mem |-> mem, consumer |-> r.ctype]
+
+Refused == [handled |-> "", params |-> <<>>, body |-> <<>>]       \* 404 / 415 / 422: no handler is invoked
+\* one request served -> [mem, out]
+Serve(mem, cfg, r) ==
+  LET lr == LookupRoute(mem, cfg, r) IN
+  IF ~lr.route.found THEN [mem |-> lr.mem, out |-> Refused]
+  ELSE LET sc == SelectConsumer(lr.mem, lr.route, r)
+           b  == IF sc.consumer = "none" THEN [ok |-> TRUE, v |-> <<>>] ELSE BodyDecode(sc.consumer, r.body)    \* untypedParamBinder.Bind
+       IN IF ~b.ok THEN [mem |-> sc.mem, out |-> Refused]
+          ELSE [mem |-> sc.mem, out |-> [handled |-> lr.route.op, params |-> lr.route.params, body |-> b.v]]
+
+\* C04 for one call of a session, whatever was served before
+SessionCallInScope(c) == (\A n \in DOMAIN c.vals : InScope("path", c.vals[n])) /\ (c.media # "none" => BodyInScope(c.media, c.body))
+SessionCallAgrees(c, out) == out.handled = c.op /\ out.params = c.vals /\ out.body = c.body
+
+---------------------------------------------------------------------------
 (* the way back: status, header fields, body                               *)
 \* status codes a handler may pick that carry through unchanged: final responses other than
 \* redirects (the client's http.Client follows 3xx) - named deviation RedirectsFollowed
@@ -123,15 +245,25 @@ ResponseSeen(h) ==     \* h = [code, hdrs : Seq([k, vs]), body]
 
 ---------------------------------------------------------------------------
 (* The property on one observed exchange (TraceRoundTrip).                 *)
-(*  c = the call: [op, params : Seq([name, loc, kind, vs])], kind \in      *)
-(*      {"scalar", "multi", "file", "body"}; vs = Seq(bytes) (scalar: one; *)
-(*      file: <<base name, content id>>; body: <<canonical bytes>>)        *)
+(*  c = the call: [op, media, params : Seq([name, loc, kind, vs, off])],   *)
+(*      kind \in {"scalar", "multi", "file", "body", "strbody"};           *)
+(*      vs = Seq(bytes) (scalar: one; body: <<canonical digest>>; strbody: *)
+(*      <<the string>>; file: <<base name, content id>> where the content  *)
+(*      id of a small upload source is the content of the underlying file  *)
+(*      and off the position it was handed over at - the spec takes what   *)
+(*      remains; of a large one the digest of the remaining bytes, off 0)  *)
+(*      media = "json" | "text" | "urlencoded" | "multipart" | "none"      *)
 (*  o = the observation: [err, handled_op, received : Seq([name, vs]),     *)
 (*      handler : [code, hdrs, body], seen : [code, hdrs, body]]           *)
 ValueLoc(p) == IF p.loc \in {"file", "body"} THEN "multiform" ELSE p.loc    \* files and bodies travel verbatim
 
-ParamInScope(p) == \A i \in 1..Len(p.vs) : InScope(ValueLoc(p), p.vs[i])
-CallInScope(c)  == \A i \in 1..Len(c.params) : ParamInScope(c.params[i])
+ParamInScope(c, p) ==
+  /\ \A i \in 1..Len(p.vs) : InScope(ValueLoc(p), p.vs[i])
+  /\ p.kind = "strbody" => c.media \in BodyMedia /\ BodyInScope(c.media, p.vs[1])
+CallInScope(c)  == \A i \in 1..Len(c.params) : ParamInScope(c, c.params[i])
+
+\* the values the caller supplied: of an upload source, what remained to be read
+SuppliedVs(p) == IF p.kind = "file" THEN << p.vs[1], Remaining(p.vs[2], p.off) >> ELSE p.vs
 
 Received(o, name) == LET idx == {i \in 1..Len(o.received) : o.received[i].name = name}
                      IN IF idx = {} THEN <<>> ELSE << o.received[CHOOSE i \in idx : TRUE].vs >>
@@ -141,7 +273,7 @@ HdrSeen(o, k) == LET idx == {i \in 1..Len(o.seen.hdrs) : o.seen.hdrs[i].k = k}
 
 RequestAgrees(c, o) ==
   /\ o.handled_op = c.op                                                  \* that operation's handler is invoked
-  /\ \A i \in 1..Len(c.params) : Received(o, c.params[i].name) = << c.params[i].vs >>   \* with the values supplied
+  /\ \A i \in 1..Len(c.params) : Received(o, c.params[i].name) = << SuppliedVs(c.params[i]) >>   \* with the values supplied
 
 ResponseInScope(h) ==
   /\ StatusInScope(h.code)
@@ -162,7 +294,7 @@ WhyExchange(c, o) ==
   IF o.err THEN "client-error"
   ELSE IF o.handled_op # c.op THEN "other-operation-or-none-invoked"
   ELSE IF ~RequestAgrees(c, o)
-       THEN LET i == CHOOSE j \in 1..Len(c.params) : Received(o, c.params[j].name) # << c.params[j].vs >>
+       THEN LET i == CHOOSE j \in 1..Len(c.params) : Received(o, c.params[j].name) # << SuppliedVs(c.params[j]) >>
             IN CASE c.params[i].loc = "path"   -> "received-differs-path"
                  [] c.params[i].loc = "query"  -> "received-differs-query"
                  [] c.params[i].loc = "header" -> "received-differs-header"
